@@ -19,6 +19,10 @@ Inductive case :=
    13 = Local.Put in a method marked safe, 14 = Notify in a method marked safe, 15 = nothing.
    completed = HALT; w/n = storage changed / event emitted; c = the final callee contract ran *)
 | CChain (hops : list (N * N)) (final_flags final : N) (completed w n c : bool)
+(* a deployed contract whose frame has flags f (called by the entry script asking for f) executes CALLT of a method
+   token with call flags tf to the final method (10..15 as for CChain).  completed = HALT; w/n = storage changed /
+   event emitted; ran = the token's callee ran; zran = the contract the callee calls on ran (final 12) *)
+| CCallT (f tf final : N) (completed w n ran zran : bool)
 (* Permission.IsAllowed *)
 | CPerm1 (p : permission) (c : callee) (m : string) (impl : bool)
 (* Manifest.CanCall *)
@@ -99,6 +103,33 @@ Definition check_case (cs : case) : N :=
           let model := Bool.eqb completed ok && Bool.eqb w mw && Bool.eqb n mn && Bool.eqb c mc in
           let spec := imp w (has g WriteStates) && imp n (has g AllowNotify) && imp c (has g AllowCall) &&
                       subflags g AllFlags in
+          code3 model spec
+      end
+  | CCallT f tf final completed w n ran zran =>
+      let finstr :=
+        match final with
+        | 10 => Some (false, [ISys "System.Storage.Local.Put"])
+        | 11 => Some (false, [ISys "System.Runtime.Notify"])
+        | 12 => Some (false, [ICall AllFlags false []])
+        | 13 => Some (true, [ISys "System.Storage.Local.Put"])
+        | 14 => Some (true, [ISys "System.Runtime.Notify"])
+        | 15 => Some (false, [])
+        | _ => None
+        end in
+      match finstr with
+      | None => 3
+      | Some (fsafe, body) =>
+          let '(tr, ok) := exec_now AllFlags (ICall f false [ICallT tf fsafe body]) in
+          let ncalls := List.length (filter (fun x => match fst x with ECall => true | _ => false end) tr) in
+          let mw := existsb (fun x => match fst x with EWrite => true | _ => false end) tr in
+          let mn := existsb (fun x => match fst x with ENotify => true | _ => false end) tr in
+          let model := Bool.eqb completed ok && Bool.eqb w mw && Bool.eqb n mn &&
+                       Bool.eqb ran (2 <=? ncalls)%nat && Bool.eqb zran ((final =? 12) && (3 <=? ncalls)%nat) in
+          (* specification: the callee runs only if the calling frame has AllowCall; its effects need the bit in
+             caller's flags AND the token's flags (and no safe callee) *)
+          let g := chain_flags AllFlags [(f, false); (tf, fsafe)] in
+          let spec := imp ran (has f AllowCall) && imp w (has g WriteStates) && imp n (has g AllowNotify) &&
+                      imp zran (has g AllowCall) in
           code3 model spec
       end
   | CPerm1 p c m impl =>
